@@ -42,12 +42,16 @@ class Slot:
 class Tab:
     """slots + column names + whether positions are meaningful."""
 
-    __slots__ = ("slots", "cols", "ordered")
+    __slots__ = ("slots", "cols", "ordered", "det", "dropped")
 
-    def __init__(self, slots, cols, ordered=True):
+    def __init__(self, slots, cols, ordered=True, det=True, dropped=False):
         self.slots = list(slots)
         self.cols = frozenset(cols)
         self.ordered = ordered
+        # SQL-mode bookkeeping (DESIGN 2.4 determinacy): `det` = the order is a function of the data
+        # (total up to identical rows); `dropped` = a projection removed a column since the sort.
+        self.det = det
+        self.dropped = dropped
 
     def count(self):
         return zsum(b2i(s.p) for s in self.slots)
